@@ -55,6 +55,8 @@ enum SigT {
     ArrNumOrStr,
     /// array[number|string]
     ArrayOfNumOrStr,
+    /// expref|number
+    ExprefOrNum,
 }
 
 const SIGTS: &[SigT] = &[
@@ -71,6 +73,7 @@ const SIGTS: &[SigT] = &[
     SigT::ArrayArrayNumber,
     SigT::ArrNumOrStr,
     SigT::ArrayOfNumOrStr,
+    SigT::ExprefOrNum,
 ];
 
 impl SigT {
@@ -89,6 +92,7 @@ impl SigT {
             SigT::ArrayArrayNumber => "array[array[number]]",
             SigT::ArrNumOrStr => "array[number]|string",
             SigT::ArrayOfNumOrStr => "array[number|string]",
+            SigT::ExprefOrNum => "expref|number",
         }
     }
     fn from_name(s: &str) -> Option<SigT> {
@@ -117,6 +121,7 @@ impl SigT {
                 ArgumentType::Number,
                 ArgumentType::String,
             ]))),
+            SigT::ExprefOrNum => ArgumentType::Union(vec![ArgumentType::Expref, ArgumentType::Number]),
         }
     }
     /// The reference model's own notion of "argument satisfies type".
@@ -144,6 +149,7 @@ impl SigT {
                 Variable::Array(a) => a.iter().all(|x| SigT::NumOrStr.accepts(x)),
                 _ => false,
             },
+            SigT::ExprefOrNum => matches!(v, Variable::Expref(_) | Variable::Number(_)),
         }
     }
 }
@@ -628,7 +634,7 @@ fn unknown_names(node: &Ast, m: &ModelRt, out: &mut BTreeSet<String>) {
 // ------------------------------------------------------------------ generator
 
 fn gen_sig(r: &mut Rng) -> Sig {
-    let n = r.below(3);
+    let n = if r.chance(1, 8) { 3 + r.below(2) } else { r.below(3) };
     let pool = [
         SigT::Any,
         SigT::Any,
@@ -642,8 +648,10 @@ fn gen_sig(r: &mut Rng) -> Sig {
         SigT::ArrayArrayNumber,
         SigT::ArrNumOrStr,
         SigT::ArrayOfNumOrStr,
+        SigT::ExprefOrNum,
     ];
     Sig {
+        // up to 4 declared inputs
         inputs: (0..n).map(|_| r.pick(&pool).clone()).collect(),
         variadic: if r.chance(1, 3) { Some(r.pick(&pool).clone()) } else { None },
     }
@@ -684,16 +692,25 @@ fn gen_call(r: &mut Rng, depth: u32, names: &[&str]) -> String {
             "abs" => return format!("abs({})", r.pick(&["`-3`", "a", "ys[1]", "k"])),
             "length" => return format!("length({})", r.pick(&["ys", "b", "o", "xs", "`\"four\"`"])),
             "not_null" => return format!("not_null(e, {})", gen_arg(r, 0, names)),
-            "map" => return format!("map(&{}, {})", r.pick(&["k", "@", "n"]), r.pick(&["xs", "ys"])),
+            "map" => {
+                // the expression reference may itself call a registered function: it is
+                // evaluated later, by the built-in, through the expression's own runtime
+                return if depth > 0 && r.chance(1, 2) {
+                    format!("map(&{}, {})", gen_call(r, depth - 1, names), r.pick(&["xs", "ys"]))
+                } else {
+                    format!("map(&{}, {})", r.pick(&["k", "@", "n"]), r.pick(&["xs", "ys"]))
+                };
+            }
             "type" | "to_array" => return format!("{}({})", name, gen_arg(r, 0, names)),
             _ => {}
         }
     }
-    let n = match r.below(8) {
-        0 => 0,
-        1..=4 => 1,
-        5 | 6 => 2,
-        _ => 3,
+    let n = match r.below(16) {
+        0 | 1 => 0,
+        2..=8 => 1,
+        9..=12 => 2,
+        13 | 14 => 3,
+        _ => 4 + r.below(6),
     };
     let args: Vec<String> = (0..n).map(|_| gen_arg(r, depth, names)).collect();
     format!("{}({})", name, args.join(", "))
@@ -881,7 +898,7 @@ fn identify(f: &dyn Function, rt: &Runtime, log: &Log, expect_sig: Option<&Sig>)
     // that a signed recording function is actually entered
     let probe_for = |t: &SigT| -> Rcvar {
         Rcvar::new(match t {
-            SigT::Any | SigT::Number | SigT::NumOrStr => Variable::Number(serde_json::Number::from(-3)),
+            SigT::Any | SigT::Number | SigT::NumOrStr | SigT::ExprefOrNum => Variable::Number(serde_json::Number::from(-3)),
             SigT::String => Variable::String("p".into()),
             SigT::Expref => Variable::Expref(Ast::Identity { offset: 0 }),
             SigT::Array | SigT::ArrayNumber | SigT::ArrayArrayNumber | SigT::ArrNumOrStr | SigT::ArrayOfNumOrStr => {
